@@ -44,9 +44,24 @@ def is_private_helper(fx, p):
     f = fx.fn(p)
     if f is None or 'mir' not in f or f.get('kind') not in ('Fn', 'AssocFn'):
         return False
-    if f.get('reachable_pub') or f.get('impl_trait'):
+    if f.get('reachable_pub'):
         return False
+    if f.get('impl_trait'):
+        # the method of the only impl of a crate-private trait is a helper in trait clothing
+        return unique_private_impl_method(fx, f['impl_trait'], f.get('name')) == p
     return True
+
+
+def unique_private_impl_method(fx, trait, name):
+    """def-path of method `name` when `trait` is crate-private and has exactly one impl in the crate, else None."""
+    t = fx.traits.get(trait)
+    if t is None or not str(t.get('vis', 'Public')).startswith('Restricted'):
+        return None
+    impls = fx.impls_of(trait)
+    if len(impls) != 1:
+        return None
+    cands = [it['def'] for it in impls[0]['items'] if it['name'] == name]
+    return cands[0] if len(cands) == 1 and fx.body(cands[0]) is not None else None
 
 
 def inlined(fx, path, pred, depth=3, _stack=()):
